@@ -170,6 +170,7 @@ type h8Probe struct {
 	Name string
 	SQL  string
 	Mode string // parse | parse-pos | tokens
+	Solo bool   // the history is replayed on instances of its own for this probe (it looks at what the last call left behind)
 }
 
 // h8Oversize is one byte longer than the input size limit.
@@ -177,29 +178,30 @@ var h8Oversize = []byte("SELECT 1" + strings.Repeat(" ", tokenizer.MaxInputSize-
 
 var h8Probes = []h8Probe{
 	// calls the tokenizer refuses before scanning: nothing of an earlier call may remain visible on the instance
-	{"refused-cancelled", "SELECT 1", "refused-cancelled"},
-	{"refused-oversize", "", "refused-oversize"},
-	{"empty-input", "", "tokens"},
-	{"ctx-indented", "     SELECT a FROM t WHERE 'x", "tokens-ctx"},
-	{"ctx-tabs", "\tSELECT\ta,\n\t\tb FROM t", "tokens-ctx"},
-	{"parser-pool-distinct", "", "parser-pool-distinct"},
-	{"depth-150", "SELECT " + strings.Repeat("(", 150) + "1" + strings.Repeat(")", 150), "parse"},
-	{"depth-190-fn", "SELECT " + strings.Repeat("f(", 190) + "1" + strings.Repeat(")", 190), "parse"},
-	{"dialect-limit", "SELECT a FROM t LIMIT 10, 20", "parse"},
-	{"strict-semicolons", ";; SELECT 1", "parse"},
-	{"error-location-plain", "SELECT a FROM t WHERE ]", "parse"},
-	{"error-location-positions", "SELECT a\nFROM t\nWHERE ]", "parse-pos"},
-	{"depth-90", "SELECT " + strings.Repeat("(", 90) + "1" + strings.Repeat(")", 90), "parse"},
-	{"depth-96", "SELECT " + strings.Repeat("(", 96) + "1" + strings.Repeat(")", 96), "parse"},
-	{"depth-97", "SELECT " + strings.Repeat("(", 97) + "1" + strings.Repeat(")", 97), "parse"},
-	{"depth-98", "SELECT " + strings.Repeat("(", 98) + "1" + strings.Repeat(")", 98), "parse"},
-	{"depth-99", "SELECT " + strings.Repeat("(", 99) + "1" + strings.Repeat(")", 99), "parse"},
-	{"valid-tree", "SELECT a, COUNT(*) FROM t JOIN u ON t.a = u.a WHERE b IN (1, 2) GROUP BY a", "parse"},
-	{"tokens-comments", "SELECT a -- one\nFROM t /* two */ WHERE `q` = \"r\"", "tokens"},
-	{"tokens-strings", "SELECT 'alice', 'b''c', 'tab\\there', $$dollar$$, \"quoted id\" FROM t WHERE x = 'y'", "tokens"},
-	{"tokens-keywords", "SELECT zerofill, unsigned, ilike, returning FROM straight_join", "tokens"},
-	{"recovery", "SELECT 1; SELECT FROM; SELECT 2", "recovery"},
-	{"recovery-plain-tokens", "SELECT a FROM t WHERE ] ; SELECT 2", "recovery-tokens"},
+	{"refused-cancelled", "SELECT 1", "refused-cancelled", true},
+	{"refused-oversize", "", "refused-oversize", true},
+	{"empty-input", "", "tokens", true},
+	{"empty-input-ctx", "", "tokens-ctx", true},
+	{"ctx-indented", "     SELECT a FROM t WHERE 'x", "tokens-ctx", true},
+	{"ctx-tabs", "\tSELECT\ta,\n\t\tb FROM t", "tokens-ctx", true},
+	{"parser-pool-distinct", "", "parser-pool-distinct", true},
+	{"depth-150", "SELECT " + strings.Repeat("(", 150) + "1" + strings.Repeat(")", 150), "parse", false},
+	{"depth-190-fn", "SELECT " + strings.Repeat("f(", 190) + "1" + strings.Repeat(")", 190), "parse", false},
+	{"dialect-limit", "SELECT a FROM t LIMIT 10, 20", "parse", false},
+	{"strict-semicolons", ";; SELECT 1", "parse", false},
+	{"error-location-plain", "SELECT a FROM t WHERE ]", "parse", false},
+	{"error-location-positions", "SELECT a\nFROM t\nWHERE ]", "parse-pos", false},
+	{"depth-90", "SELECT " + strings.Repeat("(", 90) + "1" + strings.Repeat(")", 90), "parse", false},
+	{"depth-96", "SELECT " + strings.Repeat("(", 96) + "1" + strings.Repeat(")", 96), "parse", false},
+	{"depth-97", "SELECT " + strings.Repeat("(", 97) + "1" + strings.Repeat(")", 97), "parse", false},
+	{"depth-98", "SELECT " + strings.Repeat("(", 98) + "1" + strings.Repeat(")", 98), "parse", false},
+	{"depth-99", "SELECT " + strings.Repeat("(", 99) + "1" + strings.Repeat(")", 99), "parse", false},
+	{"valid-tree", "SELECT a, COUNT(*) FROM t JOIN u ON t.a = u.a WHERE b IN (1, 2) GROUP BY a", "parse", false},
+	{"tokens-comments", "SELECT a -- one\nFROM t /* two */ WHERE `q` = \"r\"", "tokens", false},
+	{"tokens-strings", "SELECT 'alice', 'b''c', 'tab\\there', $$dollar$$, \"quoted id\" FROM t WHERE x = 'y'", "tokens", false},
+	{"tokens-keywords", "SELECT zerofill, unsigned, ilike, returning FROM straight_join", "tokens", false},
+	{"recovery", "SELECT 1; SELECT FROM; SELECT 2", "recovery", false},
+	{"recovery-plain-tokens", "SELECT a FROM t WHERE ] ; SELECT 2", "recovery-tokens", false},
 }
 
 // h8PlainTokens is a hand-built token stream (SELECT a FROM t WHERE ] ; SELECT 2) for the token-level entry points.
@@ -329,7 +331,16 @@ func h8Run(ops []h8Op) (map[string]string, map[string][2]string, *h8State) {
 	diffs := map[string]string{}
 	detail := map[string][2]string{}
 	for _, pr := range h8Probes {
-		used := h8Outcome(s.tk, s.p, pr)
+		var used map[string]string
+		if pr.Solo {
+			solo := &h8State{tk: mustTokenizer(), p: parser.NewParser()}
+			for _, op := range ops {
+				solo.apply(op)
+			}
+			used = h8Outcome(solo.tk, solo.p, pr)
+		} else {
+			used = h8Outcome(s.tk, s.p, pr)
+		}
 		ftk, fp := h8Fresh(s.cfg)
 		fresh := h8Outcome(ftk, fp, pr)
 		for _, aspect := range []string{"dialect", "tokenize-error", "tokens", "comments", "tree", "error"} {
